@@ -327,11 +327,33 @@ def make_machine(stats, report):
     return DictMachine
 
 
+def run_ops(ops):
+    w = World()
+    for op in ops:
+        try:
+            w.apply(op)
+            w.check()
+        except Exception as e:
+            w.fail('raised/' + str(op[0]), 'operation succeeds', f'{type(e).__name__}: {e}'[:160])
+        if w.fails:
+            break
+    return w
+
+
+def minimise(fkey, case):
+    ops = core.ddmin_list(list(case["ops"]), lambda c: (lambda w: bool(w.fails) and w.fails[0][0] == fkey)(run_ops(c)), max_tests=150)
+    w = run_ops(ops)
+    case = {"ops": list(w.ops), "klong": list(w.texts)}
+    if w.fails:
+        return case, w.fails[0][1], w.fails[0][2]
+    return case
+
+
 def shard(seed_value, n, steps):
     stats = core.Stats()
     f = core.Findings("C10")
     core.run_machine_collect(stats, lambda report: make_machine(stats, report), seed_value, n, steps, rounds=6,
-                             is_known=lambda k: f.match(k) is not None)
+                             is_known=lambda k: f.match(k) is not None, minimise=minimise)
     return stats
 
 
